@@ -11,6 +11,7 @@ import Proofs.Lemmas.WbStatic
 import Proofs.Lemmas.WbLayout
 import Proofs.Lemmas.WbRound
 import Proofs.Lemmas.WbEnc
+import Proofs.Lemmas.WbParity
 namespace Proofs.C18
 open Model Model.Wb Model.Bits Proofs.Lemmas.Wb
 
@@ -146,6 +147,20 @@ theorem round_refines (K : Bits) (r : Nat) (hr : r < 16) (L R : Bits)
 theorem wb_enc_eq_des (K M : List Nat) (hK : K.length = 8) : wbEnc K M = Des.enc K M :=
   wbEnc_eq_desEnc K M hK
 
+/-- keys that differ only in parity bits (bit 7 of each byte in the bitstream numbering = the byte's least significant
+    bit) generate the same tables, round by round -/
+theorem parity_bits_ignored (K K' : Bits) (h : ∀ i, i % 8 ≠ 7 → K.ival.testBit i = K'.ival.testBit i) (r : Nat) :
+    tableRKT r K = tableRKT r K' := tableRKT_parity K K' h r
+
+/-
+  Corollary to be enabled by the integrator once Proofs.C02_Des (enc_refines : IsBytes K → IsBytes M →
+  res (Des.enc K M) = Spec.Des.enc K M) is in the same tree:
+
+    theorem wb_enc_eq_fips (K M : List Nat) (hK : K.length = 8) (hKb : IsBytes K) (hMb : IsBytes M) :
+        res (wbEnc K M) = Spec.Des.enc K M := by
+      rw [wb_enc_eq_des K M hK]; exact Proofs.C02_Des.enc_refines K M hKb hMb
+-/
+
 /-! ### non-vacuity: the statements above talk about tables that exist and are not trivial -/
 
 /-- the hypotheses of the ∀-key theorems are just index ranges; instantiated at the key of tests/test_des.py -/
@@ -162,6 +177,15 @@ example : ((do let fk ← Des.subkey (Des.PC1 ⟨0xf7b3d591e6a2c480, 64⟩) 0
 /-- the halves hypotheses of `round_refines` are inhabited by non-trivial values -/
 example : ∃ L R : Bits, L.size = 32 ∧ L.WF ∧ R.size = 32 ∧ R.WF ∧ L.ival ≠ 0 ∧ R.ival ≠ L.ival :=
   ⟨⟨0x89abcdef, 32⟩, ⟨0x01234567, 32⟩, rfl, by decide, rfl, by decide, by decide, by decide⟩
+
+/-- flipping the parity bit of the first key byte satisfies the hypothesis of `parity_bits_ignored`, for any key -/
+example (K : Bits) (r : Nat) : tableRKT r K = tableRKT r ⟨K.ival ^^^ 2 ^ 7, K.size⟩ := by
+  apply parity_bits_ignored
+  intro i hi
+  have h7 : ¬ (7 = i) := by omega
+  show K.ival.testBit i = (K.ival ^^^ 2 ^ 7).testBit i
+  rw [Nat.testBit_xor, Nat.testBit_two_pow]
+  simp [h7]
 
 /-- `wb_enc_eq_des` at the key of tests/test_des.py -/
 example (M : List Nat) : wbEnc [0x01, 0x23, 0x45, 0x67, 0x89, 0xab, 0xcd, 0xef] M = Des.enc [0x01, 0x23, 0x45, 0x67, 0x89, 0xab, 0xcd, 0xef] M :=
